@@ -13,7 +13,9 @@ EVIDENCE = dict(
          "load/save cycles (quick n=3, thorough n=6). TLC checks: every later save is chunk-for-chunk identical to Y; the "
          "object loaded from Y equals the object loaded from X; saving left the snapshot unchanged; Y = Write(loaded "
          "object). MC_RVFormat checks Idem (Write(Read(Write(s))) = Write(s)) on the bounded model incl. controller values "
-         "outside their ranges. non-trivial = a mutated source or one with at least 2 modules.",
+         "outside their ranges. Added sources: a 270-module project, MetaModules over negative-minimum targets and chained "
+         "through nested MetaModules, consecutive Samplers, files beyond nominal ranges behind containers (these must load), files "
+         "with conflicting slot claims (known finding). non-trivial = a mutated source or one with at least 2 modules.",
     explanation="histories: n load/save cycles per source")
 
 
